@@ -18,6 +18,7 @@ CLAIMED = {
  "C15": ("exploration", "Real client-go elector on the simulated clock; old leader crashes after an arbitrary request, a new leader is elected after lease expiry and probed; every revision it hands out is compared with the maximum stored revision from the ground truth.", "6 (C15)"),
  "C16": ("exploration", "Seeded request histories through the real etcd handler objects of a real NewServer node (leader via the real elector) compared in lock-step with an executable etcd-semantics reference model; unsupported shapes from a grammar must be rejected without mutation or executed exactly as the reference prescribes. Sequential: the deciding step is seeded history generation against a reference model.", "6 (C16)"),
  "C18": ("exploration", "Two real server objects over one engine with a simulated peer transport; full request-type x role x proxy x peer-state matrix per run class, plus concurrent follower reads against a writing leader under seeded schedules and delayed responses; freshness judged against the leader's committed revision sampled at the read's invoke step, content against the MVCC model.", "6 (C18)"),
+ "C20": ("exploration", "Seeded hostile requests through both handler sets of a real NewServer leader with the real Prometheus client, racing clients, failing streams; a liveness probe after requests turns 'wedged' into an observable; panics recovered on request goroutines, worker deaths with repository frames re-executed in a fresh process; recording wrapper checks metric name -> kind/label-set consistency independent of order.", "6 (C20)"),
 }
 TECH = "deterministic simulation with fault injection (seeded token scheduler over testing/synctest, simkv fault seam, reference-model oracles)"
 NOTE = "Trusted: Go 1.26.8 testing/synctest quiescence, the simulator's decoder of the key layout, the hook lines (add-only, tag verif). Sampled search: clean run = evidence, not proof."
